@@ -216,6 +216,14 @@ def run_one(it):
                 eq.trigger_collection_events([100] if k == 0 else [101, 100])
                 s.run_until(lambda: len(rec["received"]) >= len(rec["triggered"]), max_dt=100)
             crossing(tag)
+            # a second report on the same event (status variable 10): from now on every trigger is announced once per linked report, each
+            # notification carrying the values of that report only
+            call(tag + "subscribe_second_report", lambda: (host.subscribe_collection_event(100, [10], 5000 + len(rec["triggered"])), "ok")[1], "ok")
+            eq.data_values[20].value = rng.randrange(1000)
+            rec["triggered"].append(canon([100, [eq.data_values[20].value]]))
+            rec["triggered"].append(canon([100, [eq.status_variables[10].value]]))
+            eq.trigger_collection_events([100])
+            s.run_until(lambda: len(rec["received"]) >= len(rec["triggered"]), max_dt=100)
             call(tag + "remote_command", lambda: host.send_remote_command("START", []).HCACK.get(), 4)
             s.run_until(lambda: bool(started), max_dt=50)
             call(tag + "remote_command_executed", lambda: len(started) >= 1, True)
